@@ -92,11 +92,11 @@ Theorem C04_array_flatten_refuted :
 Proof. eexists. split; [vm_compute; reflexivity|]. vm_compute. discriminate. Qed.
 Print Assumptions C04_array_flatten_refuted.
 
-(* map values: rules and list rules of the item schema are not read back *)
-Theorem C04_map_item_rules_refuted :
-  not_read_back (EE [] []) (plain [97] (PMap (TStr (Some (SR None (Some 1) None)) None))).
+(* map values: list rules of the item schema stay on the entry's value field and are not read back *)
+Theorem C04_map_item_listrules_refuted :
+  not_read_back (EE [] []) (plain [97] (PMap None (TStr None (Some (LP false false true false []))))).
 Proof. eexists. split; [vm_compute; reflexivity|]. vm_compute. discriminate. Qed.
-Print Assumptions C04_map_item_rules_refuted.
+Print Assumptions C04_map_item_listrules_refuted.
 
 Theorem C04_full_refuted : ~ C04_full_statement.
 Proof.
@@ -132,10 +132,10 @@ Example C04_example :
               P [99] false false (PArray (Some (AR (Some 1) None (Some true))) (Some [120]) (TEnum (Some (ER [[82]] [[67;95;71]])) None)) [];
               P [100] false false (PSingle (TKey (Some KId62) (Some (EK (Some (EPrimary true)) (Some [116]))) None)) [];
               P [101] false false (PSingle (TDate (Some (TR (Some [50]) None (Some true) None)) None)) [];
-              P [102] false false (PMap (TStr None None)) [] ] in
+              P [102] true false (PMap (Some (MR (Some 1) None)) (TStr (Some (SR None (Some 2) None)) None)) [] ] in
   forallb rt_ok ds = true /\
   exists os, write_object env ds = Ok os /\ read_object env os = Ok (norm_object env ds)
-             /\ map (fun r => p_req (rp_prop r)) (norm_object env ds) = [true; false; false; true; false; false].
+             /\ map (fun r => p_req (rp_prop r)) (norm_object env ds) = [true; false; false; true; false; true].
 Proof.
   cbv zeta. split; [vm_compute; reflexivity|].
   eexists. split; [vm_compute; reflexivity|]. split; vm_compute; reflexivity.
